@@ -46,7 +46,7 @@ def _env() -> Dict[str, str]:
 def _run_shard(modname: str, idx: int, tier: str, shard: Dict[str, Any], workdir: str) -> Dict[str, Any]:
     out = os.path.join(workdir, f"shard_{idx}.json")
     budget = float(shard.get("budget_s", 120))
-    hard = budget * 1.5 + 120
+    hard = budget * 3 + 240  # wall clock; generous because the CPU budget is what bounds a shard and the machine may be loaded
     t0 = time.time()
     try:
         p = subprocess.run(
@@ -164,7 +164,13 @@ def run_property(modname: str, tier: str) -> int:
                                       "public": rr.get("public")})
                 else:
                     not_reproduced.append(v)
+        candidates_cleared = 0
         for v in not_reproduced:
+            if v["key"].startswith("candidate:"):
+                # a candidate is a path whose witness is DECIDED by the concrete replay (e.g. a pair of names which the naming
+                # functions map to one name: whether the generator reports it is only observable on a real meta-model)
+                candidates_cleared += 1
+                continue
             # a key for which another witness reproduced is fine; else the encoding or a stub is wrong
             if not any(c["key"] == v["key"] for c in confirmed):
                 harness_errors.append(f"witness did not reproduce: {v['key']} args={json.dumps(v['args'])[:300]}")
@@ -242,6 +248,8 @@ def run_property(modname: str, tier: str) -> int:
             "violating_path_classes": {k: sum(int((r.get("violation_keys") or {}).get(k, 0)) for r in results)
                                        for k in by_key},
             "known_findings_observed": known_lines,
+            "candidates_decided_by_concrete_replay": {"cleared": candidates_cleared,
+                                                      "violating": sum(1 for c in confirmed if c["key"].startswith("candidate:"))},
             "harness_errors": harness_errors,
         }
         for k, v in ev_extra.items():
